@@ -67,6 +67,7 @@ type Scalar struct {
 }
 
 func (*Scalar) Structure() algebra.Structure[*Scalar] { return NewScalarField() }
+
 // Int returns the value; in Big mode an interned token (equal scalars <=> equal token).
 func (s *Scalar) Int() uint64 {
 	if Big {
